@@ -260,6 +260,11 @@ Example ex_verdicts :
        (mk_ytest (Some "2018-01") [("housing", YL (Str "tenant")); ("birth", YD [("ETERNITY", YS [Str "1980-02-03"; Str "1970-01-02"])])] MNone MNone) = false.
 Proof. vm_compute. repeat split. Qed.
 
+(** a NaN / infinite engine value is within no margin of any number *)
+Example ex_nonfinite :
+  forall am rm, assert_near JFloat [RNF] [Num 0] am rm = Ok false.
+Proof. intros am rm. reflexivity. Qed.
+
 Example ex_layout_hyps :
   Forall (fun c : cell => exists ty, ex_vt (fst (fst c)) = Some ty) (ex_cells 3)
   /\ (ex_vt "person" = None /\ ex_sing "person" = true)
